@@ -145,12 +145,32 @@ impl AsRef<[u8]> for LiarOwner {
     fn as_ref(&self) -> &[u8] {
         let n = self.calls.get();
         self.calls.set(n + 1);
+        if n > 300 {
+            // fuel: an inconsistent owner may make a consumer loop for ever (allowed, it is not a memory error)
+            panic!("liar owner: out of fuel");
+        }
         match (self.mode, n) {
             (1, 0) => panic!("liar owner: as_ref panics"),
             (2, 0) => &self.a,
             (2, _) => &self.b,
             (3, 0) => &self.a[..0],
             (3, _) => &self.b,
+            (4, 0) => &self.b,
+            (4, _) => &self.a,
+            (5, k) => {
+                if k % 2 == 0 {
+                    &self.a
+                } else {
+                    &self.b
+                }
+            }
+            (6, k) => {
+                if k % 2 == 0 {
+                    &self.b
+                } else {
+                    &self.a
+                }
+            }
             _ => &self.a,
         }
     }
@@ -678,6 +698,92 @@ pub fn run(tier: &str, parity_odd: bool, shard: usize, nshards: usize, rep: &mut
                 let end = oracle::end_execution();
                 if !end.leaked.is_empty() || end.corrupt.is_some() {
                     rep.violate("C17", "from_owner:leak", &format!("from_owner with {}: {:?}", what, end), "");
+                }
+            }
+        }
+        // io::Cursor<T> over an owner whose as_ref() answers a different slice per call (short 4 bytes / long 64 bytes):
+        // every Buf method of the cursor and the consumers built on it
+        for mode in [0u8, 2, 3, 4, 5, 6] {
+            for pos in [0u64, 2, 4, 5, 40, 64, 70] {
+                for follow in 0..12u8 {
+                    oracle::begin_execution(parity_odd);
+                    oracle::sys::set_crash_note(&format!("liar cursor owner mode={} pos={} follow={}", mode, pos, follow));
+                    st.execs += 1;
+                    let mut out: Out = Vec::with_capacity(256);
+                    let r = oracle::subject(|| {
+                        catch_unwind(AssertUnwindSafe(|| {
+                            let o = LiarOwner { a: vec![0x11, 0x12, 0x13, 0x14], b: (0..64u8).map(|i| 0x20 + (i & 0x3f)).collect(), calls: std::cell::Cell::new(0), mode };
+                            let mut c = std::io::Cursor::new(o);
+                            c.set_position(pos);
+                            match follow {
+                                0 => push_bytes(&mut out, c.chunk()),
+                                1 => {
+                                    let _ = c.remaining();
+                                    push_bytes(&mut out, c.chunk());
+                                }
+                                2 => push_val(&mut out, c.get_u8() as u128, 1),
+                                3 => push_val(&mut out, c.get_u32() as u128, 4),
+                                4 => {
+                                    let mut d = [0u8; 6];
+                                    c.copy_to_slice(&mut d);
+                                    push_bytes(&mut out, &d);
+                                }
+                                5 => {
+                                    let b = c.copy_to_bytes(3);
+                                    push_bytes(&mut out, &b);
+                                }
+                                6 => {
+                                    c.advance(2);
+                                    push_bytes(&mut out, c.chunk());
+                                }
+                                7 => {
+                                    let mut dst = [IoSlice::new(&[]); 2];
+                                    let n = c.chunks_vectored(&mut dst);
+                                    for sl in &dst[..n] {
+                                        push_bytes(&mut out, sl);
+                                    }
+                                }
+                                8 => {
+                                    let mut m = BytesMut::with_capacity(2);
+                                    m.put(&mut c);
+                                    push_bytes(&mut out, &m);
+                                }
+                                9 => {
+                                    let t = Buf::take(&mut c, 5);
+                                    push_bytes(&mut out, t.chunk());
+                                }
+                                10 => {
+                                    let mut ch = Buf::chain(&mut c, &b"zz"[..]);
+                                    let b = ch.copy_to_bytes(5);
+                                    push_bytes(&mut out, &b);
+                                }
+                                _ => {
+                                    let mut v: Vec<u8> = Vec::new();
+                                    let mut rd = Buf::reader(&mut c);
+                                    let mut d = [0u8; 7];
+                                    let n = rd.read(&mut d).unwrap_or(0);
+                                    v.extend_from_slice(&d[..n.min(7)]);
+                                    push_bytes(&mut out, &v);
+                                }
+                            }
+                        }))
+                    });
+                    match r {
+                        Ok(()) => st.returned += 1,
+                        Err(p) => {
+                            st.panics += 1;
+                            oracle::subject(|| drop(p));
+                        }
+                    }
+                    let what = format!("cursor over owner mode {} at position {} then consumer {}", mode, pos, follow);
+                    judge("io::Cursor<liar owner>", &what, &out, rep);
+                    if let Some(v) = oracle::take_violation().or_else(oracle::check_canaries) {
+                        rep.violate("C17", "cursor-owner:memory", &format!("io::Cursor over an inconsistent AsRef with {}: {}", what, v), "");
+                    }
+                    let end = oracle::end_execution();
+                    if !end.leaked.is_empty() || end.corrupt.is_some() {
+                        rep.violate("C17", "cursor-owner:leak", &format!("io::Cursor over an inconsistent AsRef with {}: {:?}", what, end), "");
+                    }
                 }
             }
         }
